@@ -71,8 +71,9 @@ def check(ctx):
             for s in blk["stmts"]:
                 if s["s"] == "assign" and s["rhs"]["rv"] == "agg" and s["rhs"].get("adt") == INNER:
                     flds = s["rhs"]["fields"]
-                    if "dirty" in flds:
-                        init_vals.append(const_val(s["rhs"]["ops"][flds.index("dirty")]))
+                    from .fields import fname as _fname
+                    if _fname(prog, "INNER.dirty") in flds:
+                        init_vals.append(const_val(s["rhs"]["ops"][flds.index(_fname(prog, "INNER.dirty"))]))
         opens_write = bool(io.may[io_open.id] & WRITE_ATOMS)
         flushed = "BUF_FLUSH" in _flush_effects(prog).must.get(io_open.id, set())
         ok = bool(init_vals) and all(v is not False for v in init_vals) or flushed or not opens_write
@@ -117,7 +118,7 @@ def check(ctx):
                           "the io::Result of %s() on the `%s` file is %s, not propagated" % (m, fname, sorted(fate)), where=where(fn, b))
                 call_blocks.append(b)
         # the flag is cleared last
-        stores = fp.dirty_stores(fn)
+        stores = fp.dirty_stores(fn, prog)
         clears = [b for b, v in stores if v is False]
         ctx.check(len(clears) >= 1, "clear-exists", m, "%s never clears the dirty flag" % m, where=where(fn))
         for b in clears:
@@ -186,6 +187,10 @@ def _db_level(ctx, prog):
                 regs.append(f["name"])
     ctx.floor("db-sync-registries", "registries of open maps in FileDbInner", len(regs), 5)
     ap = prog.find(name="applay_all", self_adt=FILEDBINNER)
+    if len(ap) != 1:
+        # renamed: the one FileDbInner method that invokes a callback parameter
+        ap = [f for f in prog.fns.values() if f.impl_self_adt == FILEDBINNER and f.kind == "AssocFn" and any(
+            (t.get("callee") or "") in ("core::ops::function::Fn::call", "core::ops::function::FnMut::call_mut", "core::ops::function::FnOnce::call_once") for b, t in f.calls())]
     if not ctx.check(len(ap) == 1, "db-sync-registries", "anchor", "FileDbInner::applay_all not found"):
         return
     ap = ap[0]
